@@ -323,5 +323,56 @@ def helper_units():
     return units
 
 
+def field_units():
+    import sys
+    sys.path.insert(0, os.path.join(C.VERIF, 'tools', 'spec'))
+    import mkfields
+    units = []
+    imports = 'From ArmV Require Import Spec.Pseudocode.\nFrom Gen Require Import enums bits_ops shift regviews.'
+    simports = 'From ArmV Require Import Spec.Pseudocode.'
+    subclasses = {'RACR': ['DRACR', 'IRACR'], 'RSR': ['DRSR', 'IRSR']}
+    for cls in sorted(set(mkfields.ARCH) | {f[0] for f in mkfields.FAMILIES}):
+        fams = [f for f in mkfields.FAMILIES if f[0] == cls]
+
+        def cases(rng, tier, cls=cls, fams=fams):
+            out = []
+            vals = [0, 0xFFFFFFFF, 0xAAAAAAAA, 0x55555555, 0x12345678] + [rng.getrandbits(32) for _ in range(3 if tier == 'quick' else 40)]
+            for (f, hi, lo) in mkfields.ARCH.get(cls, []):
+                w = hi - lo + 1
+                xs = sorted({0, (1 << w) - 1, rng.getrandbits(w)})
+                for icls in [cls] + subclasses.get(cls, []):
+                    for v in vals:
+                        for x in xs:
+                            e = '(enc_pair enc_Z enc_Z)'
+                            out.append({'impl': {'kind': 'regfield', 'cls': icls, 'field': f, 'v': v, 'x': x},
+                                        'model': f'(enc_pure {e} ({cls}_get_{f} {v}, {cls}_set_{f} {v} {x}))' if icls == cls else None,
+                                        'spec': f'(enc_pure {e} (bits {v} {hi} {lo}, insert {v} {hi} {lo} {x}))',
+                                        'label': f'{cls}', 'nontrivial': True})
+            for (_, g, s_, hi, lo, nmax) in fams:
+                for n in range(nmax):
+                    for v in vals[:4]:
+                        h = eval(hi, {'n': n}); l = eval(lo, {'n': n})
+                        x = rng.getrandbits(h - l + 1)
+                        e = '(enc_pair enc_Z enc_Z)'
+                        out.append({'impl': {'kind': 'regfield', 'cls': cls, 'field': g, 'v': v, 'x': x, 'family': [g, s_, n]},
+                                    'model': None,
+                                    'spec': f'(enc_pure {e} (bits {v} {h} {l}, insert {v} {h} {l} {x}))',
+                                    'label': f'{cls}', 'nontrivial': True})
+            return out
+        thms = ([f'C17_fields_{cls}'] if cls in mkfields.ARCH else []) + [f'C17_family_{cls}_{f[1]}' for f in fams]
+        if cls == 'VBAR':
+            thms += ['C17_VBAR_base']
+        if cls == 'CPSR':
+            thms += ['C17_CPSR_it', 'C17_CPSR_isetstate', 'C17_CPSR_apsr']
+        if cls == 'DFSR':
+            thms += ['C17_DFSR_fs']
+        needs = []
+        units.append(Unit('fields_' + cls, thms, ['Proofs/FieldsProofs.v'], needs, cases, imports, simports))
+    return units
+
+
 def units():
-    return helper_units()
+    return helper_units() + field_units()
+
+
+PROPS_FILES = ['C17', 'C17_fields']
